@@ -67,6 +67,9 @@ pub fn proto_loop(handle: impl Fn(&[&str]) -> String) {
         let ws: Vec<&str> = line.split_ascii_whitespace().collect();
         let r = guard(|| handle(&ws)).unwrap_or_else(|| "(panic)".to_string());
         writeln!(out, "{}", r).unwrap();
+        // flush per answer: if a later request aborts the process, every earlier answer has been
+        // delivered and core.run_lines blames the right request
+        out.flush().unwrap();
     }
     out.flush().unwrap();
 }
